@@ -126,7 +126,7 @@ func init() {
 			"kind at the end of every block kind, with/without following statements) is enumerated completely as well.")
 		table := blockEndTable()
 		spec := &diffSpec{
-			profiles: []*profile{controlFlowProfile()}, batchSize: 40, batches: rs.vol(40, 1000),
+			profiles: []*profile{controlFlowProfile()}, batchSize: 40, batches: rs.vol(30, 1000),
 			fixed: table,
 			nontrivial: func(p *Program, r *Record) bool {
 				return r.Yields >= 2 && (hasLoopTag(p) || p.hasTag("break-after-yield") ||
@@ -222,16 +222,17 @@ func init() {
 
 	checks["C11"] = &checkT{run: func(rs *runState) {
 		rs.rule("acceptance: the block-end table (every last-statement kind at the end of every block kind) under all 6 import styles, the consumer/type-position shapes, " +
-			"and random programs of all profiles; oracle: the compiler exits 0 without panic and `go build -gcflags=-e` of the output succeeds without the co tag " +
+			"and random programs of all profiles spread over 1-3 source files with different import styles plus a _test.go file; oracle: the compiler exits 0 without panic and `go build -gcflags=-e` of the output succeeds without the co tag " +
 			"(compile/build casualties of every other engine-T check are the same event); non-trivial = every program (each is a distinct shape); distinct by hash(program)")
 		table := blockEndTable()
 		for i, sh := range consumerShapes {
 			table = append(table, mkShapeProgram("S"+itoa(1000+i), sh))
 		}
 		spec := &diffSpec{
-			profiles: []*profile{controlFlowProfile(), scopingProfile(), rangeProfile(), delegationProfile(), consumerProfile()}, batchSize: 40, batches: rs.vol(20, 600),
+			profiles: []*profile{controlFlowProfile(), scopingProfile(), rangeProfile(), delegationProfile(), consumerProfile()}, batchSize: 40, batches: rs.vol(12, 600),
 			fixed: table, fixedStyles: true,
 			ownsCompile: true, noTraceOwner: true,
+			multiFile: true, testFiles: true,
 		}
 		rs.exh = append(rs.exh, "block-end table + type-position shapes: "+itoa(len(table))+" programs x 6 import styles")
 		rs.runDiff(spec)
